@@ -1,11 +1,10 @@
-(* The clauses of holdsb as one boolean theorem (all but UDP order; flow
-   equivalence with the IPv6 flow label and the PSH bit masked). *)
+(* The clauses of holdsb as one boolean theorem (all but UDP order). *)
 From WG Require Import Base.Prelude Gen.Constants Gro.Bytes Gro.Model Gro.KernelSpec Gro.Spec Gro.Proofs Gro.Csum Gro.Headers Gro.HeadersTcp Gro.Lossless.
 From Coq Require Import Permutation.
 Local Open Scope N_scope.
 
 Definition holdsb_core (inp : list buf) (tw : list N) (out : list buf) : bool :=
-  bookkeeping_ok inp tw out && passthrough_ok inp tw out && floweq_gen true true inp tw out && headers_valid_ok tw out.
+  bookkeeping_ok inp tw out && passthrough_ok inp tw out && floweq_ok inp tw out && headers_valid_ok tw out.
 
 Lemma nodupb_complete l : NoDup l -> nodupb l = true.
 Proof.
@@ -36,15 +35,14 @@ Proof.
 Qed.
 
 Theorem gro_holds_core : forall (canUDP : bool) (offset : N) (bufs : list buf),
-  (forall b, In b bufs -> b_cap b <= 65535 + 2 * offset) -> bytes_ok bufs ->
-  (forall b, In b bufs -> b_hdr b = zero_vhdr) ->
+  bytes_ok bufs ->
   let s := handle_gro canUDP offset bufs in
   s_err s = false ->
   holdsb_core bufs (s_tw s) (s_bufs s) = true.
 Proof.
-  intros udp off inp Hcaps Hbytes Hzero s He.
+  intros udp off inp Hbytes s He.
   pose proof (gro_bookkeeping udp off inp He) as [Hlen [Hnd [Hbound Htrace]]]. fold s in Hlen, Hnd, Hbound, Htrace.
-  pose proof (gro_lossless_modulo udp off inp Hcaps Hbytes Hzero He) as Hflow. fold s in Hflow.
+  pose proof (gro_lossless udp off inp Hbytes He) as Hflow. fold s in Hflow.
   (* a written buffer is either merged into (GSO header) or passed through with a zero header *)
   assert (Hcase : forall j, In j (s_tw s) ->
             (merged_into (s_trace s) j /\ is_gso (get_buf (s_bufs s) j) = true) \/
@@ -53,12 +51,7 @@ Proof.
   { intros j Hj. destruct (merged_dec (s_trace s) j) as [Hm|Hm].
     - left. split; [exact Hm|]. destruct (gro_payloads_lossless udp off inp j He Hm) as [_ [_ [Hg _]]]. fold s in Hg.
       unfold is_gso. destruct (N.eqb_spec (v_gso (dec_vhdr (b_hdr (get_buf (s_bufs s) j)))) K_GSO_NONE); [contradiction|reflexivity].
-    - right. destruct (gro_passthrough_partial udp off inp j He Hj Hm) as [Hp Hh]. fold s in Hp, Hh.
-      refine (conj Hm (conj _ Hp)). destruct Hh as [Hh|Hh]; [exact Hh|]. rewrite Hh. unfold get_buf.
-      destruct (nth_in_or_default (N.to_nat j) inp dummy_buf) as [Hi|Hi]; [apply Hzero; exact Hi|].
-      exfalso. specialize (Hbound j Hj). unfold len in Hbound. rewrite map_length in Hbound.
-      assert (N.to_nat j < length inp)%nat by lia.
-      pose proof (nth_In inp dummy_buf H) as Hin. rewrite Hi in Hin. specialize (Hzero _ Hin). discriminate. }
+    - right. destruct (gro_passthrough udp off inp j He Hj Hm) as [Hp Hh]. fold s in Hp, Hh. auto. }
   assert (Hgso : forall j, In j (s_tw s) -> is_gso (get_buf (s_bufs s) j) = true -> merged_into (s_trace s) j).
   { intros j Hj Hg. destruct (Hcase j Hj) as [[Hm _]|[_ [Hz _]]]; [exact Hm|]. unfold is_gso in Hg. rewrite Hz in Hg. discriminate. }
   unfold holdsb_core. rewrite Hflow, andb_true_r.
@@ -66,7 +59,7 @@ Proof.
   - (* bookkeeping *)
     unfold bookkeeping_ok. rewrite (nodupb_complete _ Hnd). cbn [andb]. apply andb_true_iff. split.
     + apply forallb_forall. intros j Hj. apply N.ltb_lt. apply Hbound. exact Hj.
-    + apply Nat.eqb_eq. unfold floweq_gen in Hflow. apply perm_eqb_length in Hflow. rewrite !map_length in Hflow. exact Hflow.
+    + apply Nat.eqb_eq. unfold floweq_ok, floweq_gen in Hflow. apply perm_eqb_length in Hflow. rewrite !map_length in Hflow. exact Hflow.
   - (* passthrough *)
     unfold passthrough_ok. apply forallb_forall. intros j Hj.
     destruct (Hcase j Hj) as [[_ Hg]|[_ [Hz Hp]]]; [rewrite Hg; reflexivity|].
@@ -74,8 +67,8 @@ Proof.
   - (* headers *)
     unfold headers_valid_ok, descriptors_ok, lengths_all_ok, checksums_ok, gso_buffers, written.
     apply andb_true_iff. split; [apply andb_true_iff; split|]; apply forallb_filter_map; intros j Hj Hg; pose proof (Hgso j Hj Hg) as Hm.
-    + apply (gro_descriptor_lengths_valid udp off inp j Hcaps He Hm).
-    + apply (gro_descriptor_lengths_valid udp off inp j Hcaps He Hm).
-    + apply (gro_segment_checksums_valid udp off inp j Hcaps He Hm).
+    + apply (gro_descriptor_lengths_valid udp off inp j He Hm).
+    + apply (gro_descriptor_lengths_valid udp off inp j He Hm).
+    + apply (gro_segment_checksums_valid udp off inp j He Hm).
 Qed.
 Print Assumptions gro_holds_core.
